@@ -28,7 +28,7 @@ CLAIM = dict(
     ref="5.9", technique="Coq proof (fit guard) + generated-driver differential correspondence across container kinds",
     extra="Partial by nature: which `if constexpr` arm a container type selects is observed per instantiation, not proved; "
           "compilers other than g++ 12 and the NMTOOLS_DISABLE_STL configuration are not part of the quick tier.")
-RULE = ("per tier a seeded set of argument values per function (quick 6, thorough 24 value sets x 18 functions), each instantiated for "
+RULE = ("per tier a seeded set of argument values per function (quick 6, thorough 12 value sets x 18 functions), each instantiated for "
         "every container kind the function accepts (rows rejected at compile time are reported as compile-rejected and not counted); "
         "non-trivial = list argument of length >= 2; distinct = distinct (function, values) case")
 THEOREM_STATUS = {"proved": ["C09_fit_implies_ideal", "C09_kinds_agree", "C09_index_functions_kind_independent", "C09_broadcast_kind_independent",
@@ -284,7 +284,7 @@ _state = {}
 
 def _generate(seed, tier):
     rng = random.Random(seed * 7919 + (1 if tier == "thorough" else 0))
-    nsets = 6 if tier == "quick" else 24
+    nsets = 6 if tier == "quick" else 12
     cases = []      # (fn, vals, rows)
     for fn in FUNCS:
         for _ in range(nsets * (3 if fn == "reshape" else 2 if fn in ("bshape", "bto", "transpose") else 1)):
@@ -372,7 +372,7 @@ def drivers(tier):
     rng_b = random.Random(12345)
     _state["brows"] = [_rows(fn, vals, rng_b, boost=True) for fn, vals, rows in cases]
     for part in list(range(NPART)) + ["b"]:
-        for attempt in range(6):
+        for attempt in range(6 if _state.get("tier") != "thorough" else 12):
             text, where = _write_part(cases, part, rejected)
             path = os.path.join(GEN_DIR, "c09_p%s_%s.cpp" % (part, hashlib.sha256(text.encode()).hexdigest()[:12]))
             open(path, "w").write(text)
